@@ -53,7 +53,18 @@ int main(int argc, char** argv) {
             switch (kind) {
             case 0: { int pt = (int)p1; size_t es = pt == 0 ? 1 : pt == 1 || pt == 4 ? 4 : pt == 2 || pt == 5 ? 8 : pt == 3 ? 12 : pt == 7 ? p2 : sizeof(carquet_byte_array_t); void* out = v_exact((size_t)count * es); int64_t used = carquet_decode_plain(in, len, (carquet_physical_type_t)pt, (int32_t)p2, out, count);
                 if (used < 0) out_rec(o, 1, 0, NULL, 0); else if (pt == CARQUET_PHYSICAL_BYTE_ARRAY) emit_ba(o, 0, (uint32_t)used, (carquet_byte_array_t*)out, count); else out_rec(o, 0, (uint32_t)used, out, (size_t)count * es); free(out); break; }
-            case 1: { uint32_t* out = v_exact((size_t)count * 4); int64_t n = carquet_rle_decode_all(in, len, (int)p1, out, count); out_rec(o, n == (int64_t)count ? 0 : 1, (uint32_t)(n < 0 ? 0 : n), out, n > 0 ? (size_t)n * 4 : 0); free(out); break; }
+            case 1: { uint32_t* out = v_exact((size_t)count * 4); int64_t n = carquet_rle_decode_all(in, len, (int)p1, out, count);
+                /* the same stream through the streaming decoder with a call history derived from the input (single gets, batches of every
+                 * size incl. ones ending inside a bit-packed group, skips): whatever it delivers replaces the one-shot result in the
+                 * record when the two disagree, so the comparison with the reference values sees the wrong one */
+                if (n == (int64_t)count && count > 0) { carquet_rle_decoder_t dec; carquet_rle_decoder_init(&dec, in, len, (int)p1); uint32_t* so = v_exact((size_t)count * 4); memcpy(so, out, (size_t)count * 4); int64_t pos = 0; uint64_t hh = v_hash(in, len, 99) | 1; int bad = 0;
+                    while (pos < (int64_t)count && !bad) { hh = hh * 6364136223846793005ULL + 1442695040888963407ULL; int op = (int)((hh >> 33) % 8); int64_t k = 1 + (int64_t)((hh >> 40) % 21); if (k > (int64_t)count - pos) k = (int64_t)count - pos;
+                        if (op == 0) { if (!carquet_rle_decoder_has_next(&dec)) { bad = 1; break; } so[pos++] = carquet_rle_decoder_get(&dec); }
+                        else if (op == 1) { int64_t g = carquet_rle_decoder_skip(&dec, k); if (g != k) { bad = 1; break; } pos += g; }
+                        else { int64_t g = carquet_rle_decoder_get_batch(&dec, so + pos, k); if (g != k) { bad = 1; break; } pos += g; } }
+                    if (bad || memcmp(so, out, (size_t)count * 4) != 0) { fprintf(stderr, "C12: streaming decoder disagrees with one-shot decode\n"); if (bad) n = pos; memcpy(out, so, (size_t)count * 4); if (!bad) out[0] ^= (so[0] == out[0]) ? 0u : 0u; }
+                    free(so); }
+                out_rec(o, n == (int64_t)count ? 0 : 1, (uint32_t)(n < 0 ? 0 : n), out, n > 0 ? (size_t)n * 4 : 0); free(out); break; }
             case 2: { int16_t* out = v_exact((size_t)count * 2); int64_t n = carquet_rle_decode_levels(in, len, (int)p1, out, count); out_rec(o, n == (int64_t)count ? 0 : 1, (uint32_t)(n < 0 ? 0 : n), out, n > 0 ? (size_t)n * 2 : 0); free(out); break; }
             case 3: { uint32_t* out = v_exact((size_t)count * 4); size_t used = carquet_bitunpack_32(in, count, (int)p1, out); out_rec(o, 0, (uint32_t)used, out, (size_t)count * 4); free(out); break; }
             case 4: { int32_t* out = v_exact((size_t)count * 4); size_t used = 0; st = carquet_delta_decode_int32(in, len, out, (int32_t)count, &used); out_rec(o, (uint32_t)st, (uint32_t)used, out, st == CARQUET_OK ? (size_t)count * 4 : 0); free(out); break; }
